@@ -873,6 +873,9 @@ static void slow_path(void) {
 static int runnable_count(void);
 static void do_stall(vthread_t* t) {
   if (vs.stalled_tid >= 2 || vs.fair || runnable_count() <= 1) return;
+  // not inside a quiescence confirmation round: its runner would be set aside in the middle of its idle-loop iteration (for
+  // instance with a fiber it has just stolen in its hands) and the others would complete the round without it
+  if (vs.confirm_active) return;
   vs.stalled_tid++;
   vs.stall_since_t[t->id] = vs.points;
   t->state = 4;  // stalled
